@@ -611,7 +611,7 @@ func callerEntry(p *Program, fn *ssa.Function) LockSet {
 	if len(n) == 0 || (n[0] >= 'A' && n[0] <= 'Z') {
 		return LockSet{}
 	}
-	recv := fn.Params[0].Name()
+	recv := vname(fn.Params[0])
 	var entry LockSet
 	first := true
 	for _, caller := range p.SrcFuncs() {
